@@ -128,6 +128,56 @@ def _neighbour_sets(ctx, repo):
                           f"len(self.{fld}) is compared with the number of senders heard from: if a neighbour sharing several constraints is listed once per constraint the counts never match and the whole component waits for ever")
     ctx.check(n >= 2, "R-COUNT", "neighbour collections found", repo.cls(*ALGOS["mgm"]), None, f"{n}")
     # DSA counts against DcopComputation.neighbors, derived (de-duplicated) from the node's links: checked by C16 R-NEIGH
+    _neighbour_view(ctx, repo)
+
+
+# functions that use a substring test on a computation name for a size estimate only (never for the neighbour view): frozen by reading
+_SUBSTR_OK = {"computation_memory"}
+
+
+def _neighbour_view(ctx, repo):
+    """A computation waits for one message from, and sends its value to, each member of its neighbour view: the view must be exactly the other
+    ends of its constraints / links.
+    * a class that builds its own view (`self._neighbors = ..`, a `neighbors` property) excludes the own variable by (in)equality with the variable or
+      its name, over the dimensions of its constraints or the nodes of its links - nothing else is filtered out;
+    * `x in <expr>.name` / `x not in <expr>.name` is a *substring* test on a str: as a way to say 'is not me' it also drops every neighbour whose name
+      is contained in the own name (v1 next to v10); allowed only in the frozen size estimates."""
+    ctx.rule("R-NEIGHVIEW", "the neighbour view is the other ends of the constraints: own variable excluded by (in)equality, no substring test on names")
+    n = 0
+    for algo, (mod, cn) in ALGOS.items():
+        m = repo.module(mod)
+        for f in repo.all_functions(m):
+            for c in ast.walk(f.node):
+                if isinstance(c, ast.Compare) and len(c.ops) == 1 and isinstance(c.ops[0], (ast.In, ast.NotIn)) and isinstance(c.comparators[0], ast.Attribute) and c.comparators[0].attr in ("name", "_name"):
+                    n += 1
+                    ctx.check(f.name in _SUBSTR_OK, "R-NEIGHVIEW", f"{f.qualname}: `{norm(c)}`", f, c,
+                              "membership in a name is a substring test: a neighbour whose name is contained in the own name is dropped from the view, is never written to and is never waited for")
+        cls = repo.cls(mod, cn)
+        views = []
+        for fld in ("_neighbors", "neighbors"):
+            for w in field_writes(cls, fld):
+                views.append((w.func, w.stmt, w.value))
+        prop = cls.methods.get("neighbors")
+        if prop is not None:
+            for r in walk_no_nested(prop.node):
+                if isinstance(r, ast.Return) and r.value is not None and not (is_self_attr(r.value, "_neighbors") or norm(r.value) in ("self.computation_def.node.neighbors", "list(self._neighbors)")):
+                    views.append((prop, r, r.value))
+        for f, st, v in views:
+            n += 1
+            comps = [x for x in ast.walk(v) if isinstance(x, (ast.ListComp, ast.SetComp, ast.GeneratorExp))]
+            ok = norm(v) in ("comp_def.node.neighbors", "self.computation_def.node.neighbors") or len(comps) == 1
+            if ok and comps:
+                cmp_ = comps[0]
+                srcs = [norm(g.iter) for g in cmp_.generators]
+                tests = [t for g in cmp_.generators for t in g.ifs]
+                own = ("self.variable", "self._variable", "variable", "self.name", "self._name", "self.variable.name", "variable.name")
+                ok = len(tests) == 1 and isinstance(tests[0], ast.Compare) and len(tests[0].ops) == 1 and isinstance(tests[0].ops[0], (ast.NotEq, ast.IsNot)) \
+                    and (norm(tests[0].left) in own or norm(tests[0].comparators[0]) in own) \
+                    and any(s_.endswith(".dimensions") or s_.endswith(".nodes") for s_ in srcs)
+            ctx.check(ok, "R-NEIGHVIEW", f"{cn}: the own neighbour view = the other ends of the constraints", f, st,
+                      "the view must hold every variable sharing a constraint with this one, and only exclude the variable itself (by equality): a missing neighbour is never sent the value and never waited for")
+    if n < 5:
+        ctx.defer(f"R-NEIGHVIEW: only {n} sites found (3 frozen size estimates and 2 own views confirmed by reading)")
 
 
 def _isolated_no_raise(ctx, repo):
@@ -570,6 +620,9 @@ def _mgm2(ctx, repo):
     cls = repo.cls(mod, cn)
     if _empty_reductions(ctx, repo, cls) < 2:
         raise AnalysisError("R-NORAISE: call sites of MGM2's _best_gain not found")
+    from .. import mgmrules as _G
+    if _G.check_enter_state_last(ctx, list(cls.methods.values()), "R-STATE") < 8:
+        ctx.defer("R-STATE: fewer than 8 paths entering an MGM2 state found")
     table = repo.handler_table(cls)
     # handler <-> state literal <-> buffer key <-> registered message type
     for st, hn in M2_STATES.items():
@@ -783,6 +836,10 @@ _MGM = "pydcop/algorithms/mgm.py"
 _MGM2 = "pydcop/algorithms/mgm2.py"
 _DSA = "pydcop/algorithms/dsa.py"
 VARIANTS = [
+    ("mgm_neighbour_view_by_substring", _MGM, "                for v in c.dimensions\n                if v != self.variable\n", "                for v in c.dimensions\n                if v.name not in self.variable.name\n", "break", "R-NEIGHVIEW"),
+    ("dsa_cached_neighbour_view_by_substring", _DSA, "        self.constraints = comp_def.node.constraints\n", "        self.constraints = comp_def.node.constraints\n        self._neighbors = sorted(set(n for l in comp_def.node.links for n in l.nodes if n not in comp_def.node.name))\n", "break", "R-NEIGHVIEW"),
+    ("n_dsa_cached_neighbour_view", _DSA, "        self.constraints = comp_def.node.constraints\n", "        self.constraints = comp_def.node.constraints\n        self._neighbors = sorted(set(n for l in comp_def.node.links for n in l.nodes if n != self.name))\n", "neutral"),
+    ("mgm2_state_entered_before_go_is_posted", _MGM2, "                self._can_move = True\n                self.post_msg(self._partner.name, Mgm2GoMessage(True))\n", "                self._can_move = True\n                self._enter_state(\"go?\")\n                self.post_msg(self._partner.name, Mgm2GoMessage(True))\n", "break", "R-STATE"),
     ("mgm2_best_gain_of_no_neighbour", "pydcop/algorithms/mgm2.py", ["            if neigh_gains == [] or self._is_better_gain(", "        return max(gains) if self._mode == \"min\" else min(gains)"], ["            if self._is_better_gain(", "        return max(gains, default=0) if self._mode == \"min\" else min(gains)"], "break", "R-NORAISE"),
     ("mgm2_neighbors_sorted_list", _MGM2, "        self._neighbors = set(\n            [v for c in self._constraints for v in c.dimensions if v != self.variable]\n        )", "        self._neighbors = sorted(\n            [v for c in self._constraints for v in c.dimensions if v != self.variable],\n            key=lambda v: v.name,\n        )", "break", "R-COUNT"),
     ("mgm_isolated_reduces_empty", _MGM, "            value, cost = optimal_cost_value(self._variable, self._mode)\n            self.value_selection(value, cost)\n\n            if self.logger.isEnabledFor(logging.INFO):\n                self.logger.info(\n                    f\"Select initial value {self.current_value} \"", "            values, cost = self._compute_best_value()\n            self.value_selection(values[0], cost)\n\n            if self.logger.isEnabledFor(logging.INFO):\n                self.logger.info(\n                    f\"Select initial value {self.current_value} \"", "break", "R-NORAISE"),
